@@ -103,7 +103,7 @@ def plan_for(pid, tier):
     common["walk_bias"] = "merge" if pid in ("C05", "C06", "C13", "C15") else "build"
     if pid == "C03":
         import compcheck
-        common["pre"] = compcheck.dvvisit_stage
+        common["pre"] = compcheck.c03_pre
     if pid == "C10":
         common["models"] = [("Residue", "Residue.cfg", "PooledClean", ["ResidueWrong.cfg"])]
     if pid == "C11":
@@ -121,7 +121,7 @@ def plan_for(pid, tier):
         common.update(attr_all=True, walks=60 if q else 600)
     if pid == "C07":
         import compcheck
-        common["pre"] = compcheck.postiter_stage
+        common["pre"] = compcheck.c07_pre
     common["profiles"] = P[pid]
     common["attr"] = {pid}
     return common
